@@ -323,7 +323,7 @@ fn enumerate_hook(w: &World, reg: Reg, join: bool, h: &History, st: &mut Stats) 
 }
 
 pub fn replay(case: &Value, _kf: &KnownFindings) -> Result<(), Failure> {
-    let h = History::from_json(case);
+    let h = super::cross::case_history(case);
     let (w, recs) = run_history(&h).map_err(|e| Failure::new("harness", h.json(), e))?;
     judge(&h, &recs)?;
     let reg = Reg::from_name(h.cfg.region.name()).unwrap();
